@@ -500,14 +500,7 @@ class ParameterCollection(metaclass=_ParameterCollectionType):
         for pd, currentValue in currentData.items():
             # correct for global paramDef.assigned assumption
             retainedValue = getattr(self, pd.fieldName)
-            if isinstance(retainedValue, np.ndarray) or isinstance(
-                currentValue, np.ndarray
-            ):
-                if (retainedValue != currentValue).any():
-                    setattr(self, pd.fieldName, currentValue)
-                    pd.assigned = SINCE_ANYTHING
-                    self.assigned = SINCE_ANYTHING
-            elif retainedValue != currentValue:
+            if _valuesDiffer(retainedValue, currentValue):
                 setattr(self, pd.fieldName, currentValue)
                 pd.assigned = SINCE_ANYTHING
                 self.assigned = SINCE_ANYTHING
@@ -537,6 +530,19 @@ class ParameterCollection(metaclass=_ParameterCollectionType):
 
         """
         return filter(f, self.paramDefs)
+
+
+def _valuesDiffer(a, b) -> bool:
+    """Shape- and container-safe inequality of two parameter values (arrays of different shape differ; a
+    comparison that cannot be evaluated, e.g. lists holding arrays, counts as different)."""
+    try:
+        if isinstance(a, np.ndarray) or isinstance(b, np.ndarray):
+            if np.shape(a) != np.shape(b):
+                return True
+            return bool(np.any(a != b))
+        return bool(a != b)
+    except Exception:
+        return True
 
 
 def collectPluginParameters(pm):
